@@ -299,7 +299,7 @@ func (e *vgEnv) dump(errc string) *vgDump {
 			d.Rankers = append(d.Rankers, hex.EncodeToString(raw))
 		}
 	}
-	for _, seed := range []int64{1, 7, 123456789, -5, 86400} {
+	for _, seed := range []int64{1, 2, 3, 4, 5, 6, 7, 8, 9, 10, 11, 123456789, -5, 86400} {
 		p := vgPick{Seed: seed}
 		if votingPowerRank != nil && votingPowerRank.getTotalPower().Sign() > 0 {
 			p.R = new(big.Int).Rand(rand.New(rand.NewSource(seed)), votingPowerRank.getTotalPower()).String()
